@@ -291,6 +291,8 @@ def compare_case(ctx, c, reply, st):
                 return "model: parse error on line %s; the implementation parsed the file and raised %s" % (reply, res["error"])
             if head != "parse-error" and "parsed" not in res:
                 return "model: %s; the implementation raised while parsing: %s" % (head, res["error"])
+            if head == "sem-error" and reply.split(" ")[-1] != res.get("exc"):
+                return "model: %s; the implementation raised %s" % (reply, res["error"])
             return None
         return "the implementation raised %s, the model produced an analysis" % res["error"]
     if head != "ok":
